@@ -518,7 +518,7 @@ func c15Progress(c *Ctx) {
 	p := c.P
 	rule := "C15.progress"
 	c.Doc(rule, "every loop `for broker := client.any(); broker != nil; broker = client.any()`: each path back to the loop head passes client.deregisterBroker(broker); after the loop resurrectDeadBrokers() precedes the retry")
-	c.Floor(rule, 4)
+	c.Floor(rule, 6)
 	anyCall := p.ResultOf(0, "client.any")
 	n := 0
 	for _, fn := range p.Fns {
@@ -548,6 +548,38 @@ func c15Progress(c *Ctx) {
 				esc, path = r.Escape(avoid)
 			}
 			c.Check(!esc, rule, fn, "failed-broker-set-aside", lastInstr(l.Head), "every path to the next candidate sets the failed broker aside first", "the loop can try the next candidate without deregistering the failed broker: client.any() returns the same broker forever (refresh never terminates)", path)
+			// giving up on all candidates from inside the loop is allowed only when the answer would be the same from
+			// every broker: success, a request that could not even be encoded, or an authentication/authorisation
+			// verdict.  Anything else (an undecodable reply, a connection fault) is a fault of that one broker.
+			assertOK := func(typ string) VM {
+				return func(v ssa.Value) bool {
+					ex, ok := v.(*ssa.Extract)
+					if !ok || ex.Index != 1 {
+						return false
+					}
+					ta, ok := ex.Tuple.(*ssa.TypeAssert)
+					if !ok {
+						return false
+					}
+					n, _ := NamedOf(ta.AssertedType)
+					return n == typ
+				}
+			}
+			isErr := func(v ssa.Value) bool { return v.Type().String() == "error" }
+			kerrIs := func(v ssa.Value) bool { n, _ := NamedOf(v.Type()); return n == "KError" }
+			sasl, _ := p.ConstNamed("ErrSASLAuthenticationFailed")
+			authz, _ := p.ConstNamed("ErrTopicAuthorizationFailed")
+			allowed := AnyOf{
+				Cmp{token.EQL, isErr, IsNil()},
+				Truth{assertOK("PacketEncodingError"), true},
+				Cmp{token.EQL, kerrIs, ConstInt(sasl)},
+				Cmp{token.EQL, kerrIs, ConstInt(authz)},
+			}
+			r3 := *reg
+			r3.Cut = func(from, to *ssa.BasicBlock) bool { return Establishes(from, to, allowed) }
+			itR, pthR := r3.Reach(func(it Item) bool { return IsReturn()(it) && !IsRecoverBlock(it.In.Block()) }, nil)
+			c.Check(itR.IsZero(), rule, fn, "abort-only-when-final", itR.Instr(), "the candidate loop is abandoned only on success, an encoding error of the request, or an authentication/authorisation verdict",
+				"the candidate loop can return on a fault of one broker (for instance an undecodable reply) without setting it aside and trying the next: a refresh fails although another seed or known broker would answer, and keeps failing because the bad broker stays first", pthR)
 			// after the loop: the not-found exit (phi == nil) reaches resurrectDeadBrokers before any retry
 			res := p.CallTo("client.resurrectDeadBrokers")
 			isRetry := func(it Item) bool {
